@@ -84,6 +84,37 @@ def oracle(ctx, seeds=None):
                 q1 = out[name][1]
                 if np.linalg.norm(q1 - np.mean(q1)) > np.linalg.norm(Q - np.mean(Q)) * (1 + 1e-8):
                     res.fail(name + ':growth', "norm grows at CFL %r" % cfl, rp)
+    # ---- per-cell time-step array (local time stepping): (diag(1/dt) - A) dQ = A Q + b
+    for i in range(ctx.n(12, 200)):
+        n = int(rng.integers(2, 8))
+        cfg = cfg1d.rand_config(rng, model='conv', n=n, meshkind=str(rng.choice(['refined', 'faces', 'morphed'])),
+                                scheme=cfg1d.rand_scheme(rng, ['extrapol1', 'extrapol2', 'extrapol3']))
+        ok, b_ = impl.guarded(cfg1d.build, cfg)
+        if not ok:
+            continue
+        mod, msh, disc, f = b_
+        cfl = float(10.0 ** rng.uniform(-1, 1))
+        dtv = np.asarray(disc.calc_timestep(f, cfl), dtype=float)
+        def run():
+            A, b = affine_of(disc, mod, msh, n)
+            out = {}
+            for name, th in (('implicit', 1.0), ('cranknicolson', 0.5)):
+                g = f.copy(); getattr(impl.integ, name)(msh, disc).step(g, dtv.copy())
+                out[name] = np.array(g.data[0], dtype=float).copy()
+            return A, b, out
+        ok, out = impl.guarded(run)
+        res.case(('local-dt', cfg['scheme'][0], cfg['mesh']['kind']))
+        rp = dict(cfg=cfg, cfl=cfl, kind='local-dt')
+        if not ok:
+            res.fail('local-dt:raised', out, rp); continue
+        A, b, o = out
+        Q = np.array(f.data[0], dtype=float)
+        for name, th in (('implicit', 1.0), ('cranknicolson', 0.5)):
+            M = np.diag(1.0 / dtv) - th * A
+            ref = Q + np.linalg.solve(M, A @ Q + b)
+            tol = 1e-8 * max(np.linalg.cond(M), 1.0) * (1 + cfl) * (float(np.max(np.abs(Q))) + 1e-300)
+            if not np.max(np.abs(o[name] - ref)) <= tol:
+                res.fail(name + ':linear-system:local-dt', "step with a per-cell dt array differs from the theta-system solution by %r (cfl %r, mesh %s)" % (float(np.max(np.abs(o[name] - ref))), cfl, cfg['mesh']['kind']), rp)
     # ---- temporal order by step halving on a periodic linear problem
     for name, p in (('implicit', 1), ('cranknicolson', 2), ('gear', 2)):
         def run():
@@ -118,6 +149,9 @@ def oracle(ctx, seeds=None):
                                 scheme=cfg1d.rand_scheme(rng, ['extrapol1', 'extrapol2', 'extrapol3']))
         if model == 'burgers':
             cfg['prim'] = [[float(x) for x in 2.0 + 0.3 * rng.normal(size=cfg['n'])]]
+        if model in ('euler', 'sw') and i % 3 == 0:
+            cfg['prim'][1] = [0.0] * cfg['n']      # gas / water at rest: an all-zero momentum component
+            cfg['flux'] = 'centered' if model == 'sw' else str(rng.choice(['centered', 'hlle']))   # fluxes that are differentiable at u = 0
         if cfg['bcL']['type'] not in ('per', 'dirichlet', 'sym', 'outsup', 'inf'):
             cfg['bcL'] = cfg['bcR'] = {'type': 'per'}
         ok, b_ = impl.guarded(cfg1d.build, cfg)
